@@ -513,6 +513,11 @@ def run_scriptplan(tjp_file: str, output_dir: Optional[str] = None) -> tuple[boo
                 error_output = stderr_capture.getvalue()
                 return (False, error_output or "Report generation failed")
 
+    except SystemExit as e:
+        # The message handler terminates the process on errors (e.g. an illegal report file
+        # name); callers of this function expect a result so that they can clean up
+        error_output = stderr_capture.getvalue()
+        return (False, error_output or f"ScriptPlan terminated with status {e.code}")
     except Exception as e:
         error_output = stderr_capture.getvalue()
         return (False, error_output or str(e))
